@@ -67,6 +67,7 @@ def gapsLine (t : ClassTable) : String :=
     ++ " uncovered=" ++ (let l := (uncoveredPairs t).map fun cp => t.attrs.getD cp.1 "?" ++ "<-" ++ (methodNames t).getD cp.2 "?"
                           if l.isEmpty then "-" else ",".intercalate l)
     ++ " known=" ++ names t.attrs t.knownUninit
+    ++ " aliased=" ++ names t.attrs t.aliased ++ " aliasFree=" ++ fB (aliasFreeB t)
 
 abbrev DSt := Option (ClassTable × St)
 
